@@ -62,16 +62,17 @@ func probeList() []probe {
 			bopts: blob.Opts{ChunkSize: 512, MinChunkSize: 4096, Compression: "zstdchunked", Level: 1},
 		},
 		{
-			// on-memory LRU under pressure: few hot chunks, an LRU smaller than the hot set,
-			// many readers: cache hits (Get + ReadAt of the pooled buffer) constantly overlap
-			// with evictions and Adds that recycle buffers
+			// on-memory LRU under pressure: few hot chunks, an LRU smaller than the hot set, many
+			// readers and continuous eviction of the cache FILES (a chunk is only Added again
+			// when it is neither in memory nor on disk): cache hits (Get + ReadAt of the pooled
+			// buffer) constantly overlap with Adds that evict LRU entries and recycle buffers
 			name:  "lru-pressure",
 			ents:  []gen.Entry{reg("a", 2*4096, 81), reg("b", 2*4096, 83), reg("c", 2*4096, 85)},
 			bopts: blob.Opts{ChunkSize: 4096, Compression: "gzip", Level: 1},
 			env: func(e *envSpec) {
 				e.cfg.DirectoryCacheConfig.MaxLRUCacheEntry, e.cfg.DirectoryCacheConfig.MaxCacheFds = 3, 2
 				e.cfg.BlobConfig.ChunkSize = 0
-				e.walkers, e.opsA, e.opsC, e.readHeavy = 12, 500, 100, true
+				e.walkers, e.opsA, e.opsC, e.readHeavy, e.evict = 12, 500, 100, true, true
 				e.prefetchSize = 0
 			},
 		},
